@@ -25,7 +25,7 @@ ASSUMPTIONS = [
     "joblib.Parallel is replaced by running the worker function for every chunk index in a chosen order (each worker has its own file handles); real process scheduling is outside",
     "NBATCH=4096 (nbatch argument), recording length symbolic with at most the stated number of batches; values as exact reals",
 ]
-OUTSIDE = ["numeric values of the filters", "byte identity under real joblib process scheduling", "whitening (wrot) numerics", "append mode (quick tier)"]
+OUTSIDE = ["numeric values of the filters", "byte identity under real joblib process scheduling", "whitening (wrot) numerics"]
 EXPLANATION = "a skolem output row stands for every sample; every tofile record of every worker that covers the row must carry the oracle's content."
 LEVEL_TEXT = ("For every recording length (within the batch bound), worker counts 1..2 (quick) / 1..4 (thorough) in different execution orders, padding, channel rejection and car/k-filter settings, z3 decides: no feasible input raises, "
               "the output has ns+padding rows, every row is covered by a write and every write covering it carries the oracle content for that row (hence the same bytes for any worker count), the sync columns are the raw sync words, "
@@ -221,6 +221,22 @@ def _mk(ctx, max_batches, ns_min):
     return F, ns, nc
 
 
+def _old_output(ctx, F, nc):
+    """append mode: an earlier run left `old_rows` rows in the output, `old_batches` entries in the rms/time files"""
+    old_rows = ctx.int("old_rows", 1, 10 ** 9)
+    old_b = ctx.int("old_batches", 1, 10 ** 6)
+    fo = core.ufun("OLD", z3.IntSort(), z3.IntSort(), z3.IntSort())
+    arr = LArr((old_rows, nc), lambda r, c: SInt(fo(larr._int_term(r), larr._int_term(c))), aid=larr.const_aid("oldout"), tag=np.dtype(np.int16))
+    F.add("/out/x.bin", True, old_rows * nc * 2, [{"pos": 0, "array": arr, "itemsize": 2, "nbytes": old_rows * nc * 2}])
+    fr = core.ufun("OLDRMS", z3.IntSort(), z3.RealSort())
+    ft = core.ufun("OLDT", z3.IntSort(), z3.RealSort())
+    rms = LArr((old_b * NSITES,), lambda i: SReal(fr(larr._int_term(i))), aid=larr.const_aid("oldrms"), tag=np.dtype(np.float32))
+    tim = LArr((old_b,), lambda i: SReal(ft(larr._int_term(i))), aid=larr.const_aid("oldtime"), tag=np.dtype(np.float32))
+    F.add("/out/ap_rms.bin", True, old_b * NSITES * 4, [{"pos": 0, "array": rms, "itemsize": 4, "nbytes": old_b * NSITES * 4}])
+    F.add("/out/ap_time.bin", True, old_b * 4, [{"pos": 0, "array": tim, "itemsize": 4, "nbytes": old_b * 4}])
+    return old_rows, old_b, fo
+
+
 def _expected_row(ctx, sr, h, ns, r, reject, labels, k_filter):
     """oracle: content of output row r (r < ns), as int16-cast terms per column"""
     import ibldsp.voltage as v
@@ -259,25 +275,34 @@ def _expected_row(ctx, sr, h, ns, r, reject, labels, k_filter):
     return out, b, L
 
 
-def case_destripe(ctx, nproc, order, ns2add, reject, k_filter, max_batches, ns_min):
+def case_destripe(ctx, nproc, order, ns2add, reject, k_filter, max_batches, ns_min, append=False):
     import ibldsp.voltage as v
     import spikeglx
     F, ns, nc = _mk(ctx, max_batches, ns_min)
+    old_rows, old_b, fo = _old_output(ctx, F, nc) if append else (0, 0, None)
     _ORDER[0] = order
     labels = np.array([0.0, 3.0, 0.0]) if reject else None
     _LABELS[0] = labels
     nb_iter = [0]
     res = ctx.call("destripe", v.decompress_destripe_cbin, FakePath("/d/x.imec0.ap.bin"), output_file=FakePath("/out/x.bin"), nbatch=NB, nprocesses=nproc,
-                   ns2add=ns2add, reject_channels=reject, k_filter=k_filter, compute_rms=True)
+                   ns2add=ns2add, reject_channels=reject, k_filter=k_filter, compute_rms=True, append=append)
     out = F.get("/out/x.bin")
     if not ctx.oblige("output_file_exists", out is not None and bool(out.exists)):
         return
     total = ns + ns2add
-    ctx.oblige("output_has_ns_plus_padding_rows", core.eq(out.size, total * nc * 2), detail={"size": out.size, "expected_rows": total})
+    ctx.oblige("output_has_ns_plus_padding_rows", core.eq(out.size, (old_rows + total) * nc * 2), detail={"size": out.size, "expected_rows": old_rows + total})
     recs = [r for r in (out.content or []) if "array" in r]
     if not ctx.oblige("output_was_written", len(recs) > 0):
         return
     rowbytes = nc * 2
+    if append:
+        # the earlier run's rows are still there, untouched by any write of this run
+        q = ctx.int("q", 0)
+        ctx.assume(q < old_rows)
+        view = np2env.records_view(recs, nc)
+        ctx.oblige("append_keeps_the_previous_run", all_([core.eq(view.fn(q, c), SInt(fo(q.t, z3.IntVal(c)))) for c in range(nc)]), detail={"q": q})
+        recs = recs[1:]
+        recs = [dict(rec, pos=rec["pos"] - old_rows * rowbytes) for rec in recs]
     r = ctx.int("r", 0)
     ctx.assume(r < total)
     sr = spikeglx.Reader(FakePath("/d/x.imec0.ap.bin"))
@@ -323,12 +348,12 @@ def case_destripe(ctx, nproc, order, ns2add, reject, k_filter, max_batches, ns_m
     ts = F.get("/out/_iblqc_ephysTimeRmsAP.timestamps.npy")
     if ctx.oblige("rms_files_exist", rms is not None and ts is not None and bool(rms.exists) and bool(ts.exists)):
         ra, ta = rms.content["npy"], ts.content["npy"]
-        ctx.oblige("rms_has_one_row_per_batch", and_(core.eq(ra.shape[0], nbatches), bool(larr._dim_eq(ra.shape[1], NSITES))), detail={"rows": ra.shape[0], "batches": nbatches})
-        ctx.oblige("timestamps_one_per_batch", core.eq(ta.shape[0], nbatches), detail={"n": ta.shape[0]})
+        ctx.oblige("rms_has_one_row_per_batch", and_(core.eq(ra.shape[0], old_b + nbatches), bool(larr._dim_eq(ra.shape[1], NSITES))), detail={"rows": ra.shape[0], "batches": nbatches})
+        ctx.oblige("timestamps_one_per_batch", core.eq(ta.shape[0], old_b + nbatches), detail={"n": ta.shape[0]})
         rf = F.get("/out/ap_rms.bin")
         kk = ctx.int("kbatch", 0)
         ctx.assume(kk < nbatches)
-        covb = any_([core.eq(rec["pos"], kk * NSITES * 4) for rec in rf.content if "array" in rec])
+        covb = any_([core.eq(rec["pos"], (old_b + kk) * NSITES * 4) for rec in rf.content if "array" in rec])
         ctx.oblige("every_batch_has_an_rms_entry", covb, detail={"k": kk})
 
 
@@ -343,6 +368,8 @@ def cases(tier):
                 continue
             cs.append(Case(f"destripe_P{P}_o{oi}", "case_destripe", {"nproc": P, "order": order, "ns2add": 0, "reject": True, "k_filter": True,
                                                                      "max_batches": mb, "ns_min": 1024 if P == 1 else 2100}, timeout_s=3400, max_paths=400))
+    cs.append(Case("destripe_P2_append", "case_destripe", {"nproc": 2, "order": None, "ns2add": 0, "reject": True, "k_filter": True,
+                                                           "max_batches": 6, "ns_min": 8192, "append": True}, timeout_s=3400, max_paths=400))
     cs.append(Case("destripe_P2_pad_car_noreject", "case_destripe", {"nproc": 2, "order": [1, 0], "ns2add": 3, "reject": False, "k_filter": False,
                                                                       "max_batches": 6, "ns_min": 2100}, timeout_s=3400, max_paths=400))
     return cs
@@ -390,10 +417,21 @@ class Par:
     def __call__(self, jobs): return [f(*a, **k) for f, a, k in jobs]
 v.Parallel = Par; v.delayed = lambda f: (lambda *a, **k: (f, a, k))
 outs = {{}}
+append = {params.get('append', False)}
 def run(P):
     o = d / f'out{{P}}'; o.mkdir(exist_ok=True)
     v.decompress_destripe_cbin(d / 'x.imec0.ap.bin', output_file=o / 'x.bin', nbatch=NB, nprocesses=P, ns2add=ns2add, reject_channels=reject, k_filter=k_filter)
     return np.fromfile(o / 'x.bin', dtype=np.int16), o
+if append:
+    first, o = run(P)
+    try:
+        v.decompress_destripe_cbin(d / 'x.imec0.ap.bin', output_file=o / 'x.bin', nbatch=NB, nprocesses=P, ns2add=ns2add, reject_channels=reject, k_filter=k_filter, append=True)
+    except Exception as e:
+        reproduced(f'append run raised {{type(e).__name__}}: {{e}}')
+    both = np.fromfile(o / 'x.bin', dtype=np.int16)
+    if both.size != 2 * first.size or not np.array_equal(both[:first.size], first) or not np.array_equal(both[first.size:], first):
+        reproduced(f'append mode does not concatenate runs: {{both.size // nc}} rows after two runs of {{first.size // nc}}, first part intact={{np.array_equal(both[:first.size], first)}}')
+    not_reproduced()
 try:
     a, o = run(P)
 except Exception as e:
